@@ -37,6 +37,12 @@ def find_inertia(rm, rp):
 
 
 def check(model, rep):
+    # hidden state Python keeps outside the objects (not modelled by the evaluator): reported before anything else is evaluated
+    from checks.solver_common import package_lints as _package_lints
+    _package_lints(model, rep, 'C03.hidden-state', ('/solver.py', '/powertrain.py'))
+    from sa.aliases import value_order_findings as _vof
+    for _q, _m, _ln, _d in _vof(model, 'Solver'):
+        rep.violation('C03.inertia', f'{_q}:value-order', _d, f'{_m}:{_ln}')
     from checks.solver_common import absorb_arith, TIME_ARITH, EULER_ARITH, KIN_ARITH, TORQUE_ARITH
     absorb_arith(model, rep, 'C03.dep.arith', EULER_ARITH + TIME_ARITH, solver_log=True)
     rep.explain('C03: on the solver IR: the inertia loop is recognised by its loop-carried quantity; its initial value, '
